@@ -21,37 +21,47 @@ CLAIMED = True
 LEVEL = "proof"
 TECHNIQUE = ("Lean 4 invariant proofs (every history, every refusal index, every frame of foreign blocks) over allocation-explicit "
              "models of the library's allocation building blocks -- XalanVector with and without allocating elements, XalanList, "
-             "ReusableArenaBlock and the allocate/construct/commit protocol, destroyObject of the arena block list, XalanMemMgrAutoPtr, the "
-             "transcoder slot of XalanOutputStream, "
-             "XalanConstruct/XalanAllocationGuard, reserve-before-create -- each tied to the working tree by lock-step replay of the "
-             "real templates under a counting/failing MemoryManager for every refusal index; a translator regenerates the table of all "
-             "XalanConstruct overloads and placement-new sites and the guard-shape theorems are re-proved over it; the library as a whole is covered by "
-             "exhaustive fault-index ENUMERATION (not proof) of the XalanTransformer API: every allocation index of every phase of a "
-             "fixed scenario set refused once in its own process, evaluated against the specification predicate")
+             "XalanDeque (push/pop/clear, allocating values), XalanMap (buckets, rehash, entry recycling, allocating values), "
+             "ReusableArenaBlock and the allocate/construct/commit protocol, the arena block list as an owner state machine, "
+             "XalanMemMgrAutoPtr, XalanArrayAllocator, the transcoder slot of XalanOutputStream, the busy/available partition of "
+             "XalanDOMStringCache with its bound, XalanConstruct/XalanAllocationGuard, reserve-before-create -- each tied to the working "
+             "tree by lock-step replay of the real templates / classes under a counting/failing MemoryManager (for every refusal index "
+             "where the object allocates); a translator regenerates the table of all XalanConstruct overloads and placement-new sites "
+             "and the guard-shape theorems are re-proved over it; the library as a whole is covered by exhaustive fault-index "
+             "ENUMERATION (not proof): every allocation index of every phase of a fixed scenario set of the XalanTransformer API, of "
+             "XalanTransformer::initialize(manager) followed by a retry, and of an XPathEvaluator under a second manager is refused "
+             "once in its own process and evaluated against the specification predicate, with one ledger per manager")
 LEVEL_TEXT = ("PROVED (Props/C19.lean, kernel-checked, unbounded): with a ledger of outstanding blocks in which request number k is "
               "refused for an arbitrary k, the modelled vectors (also with elements whose copy allocates, including every index inside "
-              "the element-copy loops), lists, arena blocks and auto pointers keep live = owned + frame, never free a block they do "
-              "not own, stay destructible after any refusal and return every block in their destructors; destroyObject of the arena "
-              "block list and the destructors/clear of lists make no allocation request; XalanConstruct and reserve-before-create are "
-              "exception-neutral; every XalanConstruct/XalanCopyConstruct overload and every placement-new site of the current tree has an "
-              "owner for its storage (regenerated table, decide); the output stream's transcoder slot is never destroyed twice over all "
-              "setOutputEncoding histories. The defects of the original code are proved as counterexamples. Names ending _partial say what is "
-              "missing (one arena block, lists only). ENUMERATED, NOT PROVED: the ~1000-7000 allocation sites of a transformation -- for "
-              "11 fixed scenarios, 26 stylesheets failing for non-memory reasons and 2 reused-output-stream scenarios every allocation index of ctor/compile/parse/transform/destroy is refused once on the real library "
-              "(exhaustive in the index, not in scenarios) and process survival, double/foreign frees, surfacing of the failure, balance "
-              "at destruction (also of the compiled stylesheet alone) and a fresh transformer are checked; recorded traces are judged by "
-              "the Lean ledger.")
+              "the element-copy loops), lists, deques, maps, arena blocks, arena block lists, array allocators and auto pointers keep "
+              "live = owned + frame (+ the blocks a refused create-then-push is known to lose), never free a block they do not own, "
+              "stay destructible after any refusal and return every block in their destructors; destroyObject of the arena block list "
+              "and the destructors/clear of lists make no allocation request; XalanConstruct and reserve-before-create are "
+              "exception-neutral; every XalanConstruct/XalanCopyConstruct overload and every placement-new site of the current tree has "
+              "an owner for its storage (regenerated table, decide); the output stream's transcoder slot is never destroyed twice over "
+              "all setOutputEncoding histories; over all get/release/reset/clear histories of XalanDOMStringCache with any bound the "
+              "strings alive in its allocator are exactly the strings its two lists name and none is destroyed twice "
+              "(cache_release_destroys_once). The defects of the original code, and the seeded mutations met so far, are proved as "
+              "counterexamples. Names ending _partial say what is missing (one arena block, lists only). ENUMERATED, NOT PROVED: the "
+              "~1000-14000 allocation sites of a transformation -- for the fixed scenarios of gen/corpus/c19 (14 stylesheets incl. "
+              "bounded-cache crossings and duplicate map keys at compile time, two-transformer/two-manager, Xerces-DOM and "
+              "document-builder sources, 26 stylesheets failing for non-memory reasons, 2 reused-output-stream scenarios) every "
+              "allocation index of ctor/compile/parse/transform/destroy is refused once on the real library (exhaustive in the index, "
+              "not in scenarios; the largest transform phases in the thorough tier only) and process survival, double/foreign frees per "
+              "manager, surfacing of the failure, balance at destruction (also of the compiled stylesheet alone) and a fresh transformer "
+              "are checked; likewise every request of the global initialisation (then: retry, transform, terminate) and of an "
+              "XPathEvaluator over a document of another manager; XercesParserLiaison::destroyDocument by balance only; recorded traces "
+              "are judged by the Lean ledger.")
 LEVEL_NOTE = ("Trusted: Lean kernel; axioms propext/Classical.choice/Quot.sound only; the hand transcriptions of XalanVector.hpp, "
-              "XalanList.hpp, XalanDeque.hpp (push path), ReusableArenaBlock.hpp, ReusableArenaAllocator.hpp, XalanMemMgrAutoPtr.hpp and "
-              "XalanMemoryManagement.hpp (each checked by the container correspondence for every refusal index, bounded by generator "
-              "coverage; element construction abstracted to 'one allocation that may be refused'); the fault-injecting manager, the "
-              "per-index child processes and the stack symbolisation of harness/c19_memmgr.cpp; the behaviour probes that select the "
-              "model configuration. Modelled, not verified / not modelled at all: XalanMap, deque pop/clear, allocating values in "
-              "deques and maps, the arena block list apart from destroyObject's request-freedom, two-phase initialize, and every "
-              "XSLT/XPath class -- these are reached only by the fault enumeration over the scenario set gen/corpus/c19, whose verdict "
-              "is a complete finite enumeration per scenario, not a theorem.")
-DESIGN_REF = "DESIGN.md section 5, C19; design/C19.md"
-
+              "XalanList.hpp, XalanDeque.hpp, XalanMap.hpp, ReusableArenaBlock.hpp, ReusableArenaAllocator.hpp, XalanMemMgrAutoPtr.hpp, "
+              "XalanArrayAllocator.hpp, XalanMemoryManagement.hpp, XalanOutputStream::setOutputEncoding and XalanDOMStringCache.cpp "
+              "(each checked by lock-step correspondence with the real code, bounded by generator coverage; element construction "
+              "abstracted to 'one allocation that may be refused'; the string cache is modelled over the ledger of its string allocator "
+              "and without refusals); the fault-injecting managers, the per-index child processes and the stack symbolisation of "
+              "harness/c19_memmgr.cpp; the behaviour probes that select the model configuration. Not modelled at all: global "
+              "initialisation, XercesParserLiaison, the XObject factory / node-list / formatter caches and every XSLT/XPath class -- "
+              "these are reached only by the fault enumeration over the scenario set, whose verdict is a complete finite enumeration "
+              "per scenario, not a theorem.")
 THEOREMS = [
     "XalanModel.Props.C19.ledger_replay_agrees_with_primitives",
     "XalanModel.Props.C19.vector_step_contained",
@@ -86,6 +96,11 @@ THEOREMS = [
     "XalanModel.Props.C19.guard_idiom_sound",
     "XalanModel.Props.C19.reserve_before_create_sound",
     "XalanModel.Props.C19.create_then_push_leaks_counterexample",
+    "XalanModel.Props.C19.cache_release_destroys_once",
+    "XalanModel.Props.C19.cache_early_return_release_counterexample",
+    "XalanModel.Props.C19.cache_reset_ignores_bound_example",
+    "XalanModel.Props.C19.array_allocator_balanced_and_failure_contained",
+    "XalanModel.Props.C19.array_allocator_clear_leaks_counterexample",
 ]
 
 CORPUS_DIR = os.path.join(common.ROOT, "gen", "corpus", "c19")
@@ -94,7 +109,23 @@ CORPUS_DIR = os.path.join(common.ROOT, "gen", "corpus", "c19")
 QUICK_SCENARIOS = [("s1", "split"), ("s2", "direct"), ("s3", "split"), ("s4", "direct"), ("s7", "split"), ("s8", "split"),
                    ("s9", "split"),   # nested include/import chain, keys, decimal-formats, attribute-sets, document(), EXSLT
                    ("s10", "split"),  # every Elem* type, extension elements with xsl:fallback after heap-allocated elements
-                   ("s11", "split")]  # > blockSize simultaneously live objects of the arena-allocated types, out-of-order release
+                   ("s11", "split"),  # > blockSize simultaneously live objects of the arena-allocated types, out-of-order release
+                   # bounded caches crossed: recursion of depth 130 whose parameters are a concat() string, a number, a growing
+                   # node-set and a result tree fragment: > 100 cached strings / XObjects / node lists borrowed at once
+                   ("s12", "split"),
+                   # compile-time map inserts with duplicates: extension-element-prefixes / exclude-result-prefixes naming one
+                   # URI through several prefixes, duplicate keys / decimal-formats / attribute-sets across an import
+                   ("s13", "split"),
+                   # two transformers with DIFFERENT managers: stylesheet compiled and source parsed by A (manager MA),
+                   # transformed by B (manager MB); per-manager ledgers, a release to the other manager is a foreign release
+                   ("s2", "cross"), ("s11", "cross"),
+                   # the source is a XalanDocumentBuilder (made by the transformer, fed by a SAX2 reader); crossb: built by A, used by B
+                   ("s2", "builder"), ("s2", "crossb"),
+                   # the other bounded caches / pools: > 50 run-time match patterns, 60 dyn:evaluate strings, result tree
+                   # fragments nested 45 deep, xsl:sort inside a recursion 45 deep
+                   ("s14", "split"),
+                   # Xerces-DOM parsed source (parseSource(.., true) / destroyParsedSource)
+                   ("s2", "xdom")]
 THOROUGH_SCENARIOS = QUICK_SCENARIOS + [("s5", "split"), ("s6", "split"), ("s2", "split"), ("s5", "direct"), ("s9", "direct")]
 PHASES = ["ctor", "compile", "parse", "transform", "destroy"]
 
@@ -105,7 +136,13 @@ BAD_FAMILY = ["b%02d" % i for i in range(1, 28) if i != 17]
 # application-owned XalanStdOutputStream + XalanOutputStreamPrintWriter reused for several results with different encodings
 WRITER_SCENARIOS = [("w2", "writer"), ("w1", "writer")]     # w2: ISO-8859-1, US-ASCII;  w1: nine results incl. UTF-16/UTF-8/unsupported
 # quick tier: phases swept per scenario (default: all); the rest of a large scenario is swept in the thorough tier
+# quick tier: a phase of these scenarios is SAMPLED -- every stride-th allocation index, the offset rotating with the seed (the
+# thorough tier sweeps every index)
+QUICK_STRIDE = {"s12": 16, "s14": 64}
 QUICK_PHASES = {"s11": ("ctor", "parse", "transform", "destroy"), "w1": (),
+                # counting runs (balance per manager, no refusal) in quick; refusal sweeps in the thorough tier
+                "s12": ("transform",), "s13": (), "s2-cross": (), "s11-cross": (), "s2-xdom": ("parse", "destroy"),
+                "s2-builder": ("parse",), "s2-crossb": (), "s14": ("transform",),
                 # the two largest compile phases are swept in the thorough tier only (their counting runs, i.e. balance with and
                 # without the compiled stylesheet alone, stay in quick)
                 "s9": ("ctor", "parse", "transform", "destroy"), "s10": ("ctor", "parse", "transform", "destroy")}
@@ -282,6 +319,17 @@ def gen_ap_ops(r, n):
     return ops
 
 
+def gen_aa_ops(r, n):
+    """XalanArrayAllocator<long> with a small block size: best-fit reuse, oversized requests, reset() and clear()"""
+    bs = r.choice([1, 2, 4, 4, 6])
+    ops = ["aa new %d" % bs]
+    for _ in range(n + 2):
+        k = r.weighted([("alloc", 8), ("reset", 2), ("clear", 2)])
+        ops.append("aa alloc %d" % r.range(1, bs + 2) if k == "alloc" else "aa " + k)
+    ops.append("aa destroy")
+    return ops
+
+
 def gen_map_ops(r, n):
     """XalanMap<int,long> with a small bucket count, so that rehash, bucket growth and entry recycling all happen"""
     ops = ["m new %d" % r.choice([1, 2, 3, 5])]
@@ -332,6 +380,9 @@ def gen_deque_ops(r, n):
 
 
 CONTAINER_CORPUS = [
+    # XalanArrayAllocator<long>: clear() after allocations, nothing refused; and the create-then-push refusal of createEntry
+    (0, ["aa new 4", "aa alloc 2", "aa alloc 3", "aa clear", "aa alloc 1", "aa destroy"]),
+    (3, ["aa new 4", "aa alloc 1", "aa alloc 1", "aa destroy"]),
     # XalanMap<int, Boxed>: value copy of `ins 2` refused (request 13); the free entry already says erased = false and key 2, and the
     # single bucket still holds the stale iterator of the erased key 1 -> erase(2) finds the free entry
     (13, ["mb new 1", "mb ins 3 30", "mb ins 1 10", "mb erase 1", "mb ins 2 20", "mb erase 2", "mb destroy"]),
@@ -381,7 +432,7 @@ def container_part(ctx, r, model):
     # probe: which XalanList behaviour does the working tree have?
     probe = os.path.join(work, "probe.req")
     with open(probe, "w") as f:
-        f.write("new 0\nl clear\nnew 3\nl pushb 1\nl destroy\nnew 3\na new 2\na create 1\na free\nnew 2\nd new 2\nd push 1\nd size\nnew 4\ndqb new 1\ndqb push 1\nnew 13\nmb new 1\nmb ins 3 30\nmb ins 1 10\nmb erase 1\nmb ins 2 20\nmb erase 2\n")
+        f.write("new 0\nl clear\nnew 3\nl pushb 1\nl destroy\nnew 3\na new 2\na create 1\na free\nnew 2\nd new 2\nd push 1\nd size\nnew 4\ndqb new 1\ndqb push 1\nnew 13\nmb new 1\nmb ins 3 30\nmb ins 1 10\nmb erase 1\nmb ins 2 20\nmb erase 2\nnew 0\naa new 4\naa alloc 2\naa clear\naa destroy\n")
     rc, out = common.sh("%s < %s" % (harness, probe), env=env)
     pl = [l for l in out.split("\n") if l.strip()]
     clear_guard = 1 if len(pl) > 1 and "reqs=0" in pl[1] else 0
@@ -390,7 +441,8 @@ def container_part(ctx, r, model):
     pop_null = 0 if len(pl) > 12 and pl[12].startswith("ub") else 1
     drop_empty = 0 if len(pl) > 15 and " idx=1 " in pl[15] else 1
     late_unerase = 0 if len(pl) > 22 and pl[22].startswith("ub") else 1
-    ctx.extra["list_variant"] = {"clearGuard": clear_guard, "nextInit": next_init, "arenaSkipPending": skip_pending,
+    arr_clear = 1 if len(pl) > 27 and " live=0 " in pl[27] else 0
+    ctx.extra["list_variant"] = {"arrayClearDestroys": arr_clear, "clearGuard": clear_guard, "nextInit": next_init, "arenaSkipPending": skip_pending,
                                  "dequePopNull": pop_null, "dequeDropEmptyBlock": drop_empty, "mapLateUnerase": late_unerase}
     ctx.hist["variant:clearGuard=%d,nextInit=%d,arenaSkipPending=%d,dequePopNull=%d" % (clear_guard, next_init, skip_pending, pop_null)] = 1
 
@@ -398,7 +450,7 @@ def container_part(ctx, r, model):
     seqs = [(k, ops) for k, ops in CONTAINER_CORPUS]
     base = []
     for i in range(nseq):
-        ops = (gen_list_ops, gen_vec_ops, gen_arena_ops, gen_deque_ops, gen_bvec_ops, gen_ra_ops, gen_ap_ops, gen_map_ops, gen_bmap_ops, gen_dq_ops)[i % 10](r, r.range(1, maxops))
+        ops = (gen_list_ops, gen_vec_ops, gen_arena_ops, gen_deque_ops, gen_bvec_ops, gen_ra_ops, gen_ap_ops, gen_map_ops, gen_bmap_ops, gen_dq_ops, gen_aa_ops)[i % 11](r, r.range(1, maxops))
         base.append(ops)
     for ops in base:
         # every refusal index: an op makes at most 3 requests (+1 sentinel)
@@ -417,7 +469,7 @@ def container_part(ctx, r, model):
     # The request stream is split into chunks (each starts with the cfg line) that run on a few workers, each with a
     # timeout proportional to its size: a loaded machine slows every forked probe, and one long stream with one fixed
     # timeout made the whole correspondence time out.
-    cfg_line = "cfg %d %d %d %d %d %d" % (clear_guard, next_init, skip_pending, pop_null, drop_empty, late_unerase)
+    cfg_line = "cfg %d %d %d %d %d %d %d" % (clear_guard, next_init, skip_pending, pop_null, drop_empty, late_unerase, arr_clear)
     chunk_lines_max = 6000
     chunks, cur, cur_owner = [], [cfg_line], [-1]
     for si, (k, ops) in enumerate(seqs):
@@ -499,15 +551,19 @@ def container_part(ctx, r, model):
             ctx.fail("container.badfree: " + text, "double or foreign free reported by the manager: " + iv, [("new %d" % k)] + ops)
         elif iv.endswith("destroyed"):
             fired = int(f["reqs"]) >= k > 0
-            leaked_by_ctp = any(x == "v ctp" for x in ops) or ops[0].startswith(("ra ", "m ", "mb "))   # push_front of a new arena block / push_back of a new map entry refused: block leaked
-            if f["live"] != "0" and not (fired and leaked_by_ctp):
+            leaked_by_ctp = any(x == "v ctp" for x in ops) or ops[0].startswith(("ra ", "m ", "mb ", "aa "))   # push_front of a new arena block / push_back of a new map entry refused: block leaked
+            if f["live"] != "0" and not fired and ops[0].startswith("aa ") and "aa clear" in ops:
+                seen_bad.add(si)
+                ctx.fail("arr.clear-leaks-vectors: " + text, "XalanArrayAllocator::clear() drops its vectors without destroying them; blocks "
+                         "outstanding after the destructor, nothing refused: " + iv, [("new %d" % k)] + ops)
+            elif f["live"] != "0" and not (fired and leaked_by_ctp):
                 seen_bad.add(si)
                 ctx.fail("container.unbalanced: " + text, "blocks outstanding after the destructor: " + iv, [("new %d" % k)] + ops)
     for si, (k, ops) in enumerate(seqs):
         nontriv = k > 0 and len(ops) > 2
         ctx.case(nontrivial_key=("c", k, " ".join(ops)) if nontriv else None,
                  sample={"failAt": k, "ops": ops} if si in (len(CONTAINER_CORPUS), len(CONTAINER_CORPUS) + 7) else None,
-                 cls="container:" + ("bvec" if ops[0].startswith("bv") else "blocklist" if ops[0].startswith("ra") else "autoptr" if ops[0].startswith("ap") else "map" if ops[0].startswith(("m ", "mb ")) else "deque2" if ops[0].startswith("dq") else {"l": "list", "a": "arena", "d": "deque"}.get(ops[0][0], "vec")))
+                 cls="container:" + ("bvec" if ops[0].startswith("bv") else "blocklist" if ops[0].startswith("ra") else "autoptr" if ops[0].startswith("ap") else "arrayalloc" if ops[0].startswith("aa") else "map" if ops[0].startswith(("m ", "mb ")) else "deque2" if ops[0].startswith("dq") else {"l": "list", "a": "arena", "d": "deque"}.get(ops[0][0], "vec")))
     ctx.extra["container_disagreements"] = disagreements[:5]
     ctx.oblige("correspondence: XalanList<Boxed>/XalanVector<long>/XalanConstruct (real templates, failing manager) = Lean model "
                "on every op log and every refusal index", "correspondence", agree, str(disagreements[:2]))
@@ -537,9 +593,20 @@ def api_part(ctx, r, model):
              "surfaced_as_status": 0, "absorbed": 0}
     trace_ok = True
     trace_detail = []
+    unbalanced_alone = set()
+    import time as _time
+    per = ctx.extra.setdefault("seconds_per_scenario", {})
+    _last = [_time.time(), None]
+
+    def _tick(tag):
+        now = _time.time()
+        if _last[1] is not None:
+            per[_last[1]] = round(per.get(_last[1], 0) + now - _last[0], 1)
+        _last[0], _last[1] = now, tag
     for (name, api) in scenarios:
         xsl, xml = name + ".xsl", name + ".xml"
         tag = "%s-%s" % (name, api)
+        _tick(tag)
         trace = os.path.join(work, "trace_%s.txt" % tag)
         rc, lines = run_harness(exe, ["count", xsl, xml, api, trace])
         died = [l for l in lines if l.startswith("counts-died")]
@@ -555,6 +622,7 @@ def api_part(ctx, r, model):
         ctx.case(nontrivial_key=("count", tag), sample={"scenario": tag, "counts": cl[0]}, cls="balance-run")
         # balance with no injected failure (successful and failing transformations alike)
         if c["live"] != "0" or c["foreign"] != "0" or c["double"] != "0":
+            unbalanced_alone.add((name, api))      # reported here; not drawn again for the multi-scenario histories
             ctx.fail("api.unbalanced[%s]" % tag, "no allocation refused, yet after ~XalanTransformer: " + cl[0], {"scenario": tag, "k": 0})
         # the compiled stylesheet alone (compile + destroyStylesheet): only the transformer's own vector buffer may remain
         if "cssleak" in c:
@@ -572,25 +640,29 @@ def api_part(ctx, r, model):
             ctx.extra.setdefault("arena_blocks_reached", {})[tag] = blocks
         # the same verdict from the Lean ledger on the recorded event trace
         v = lean_trace_verdict(model, trace)
-        if v is None or v["verdict"] == "rejected":
+        if api in ("cross", "crossb"):
+            pass        # two managers: the recorded trace is the one of manager MB only; the per-manager counters decide
+        elif v is None or v["verdict"] == "rejected":
             trace_ok = False; trace_detail.append("%s: trace rejected by Ledger.replayAll" % tag)
         elif (v["verdict"] == "balanced") != (c["live"] == "0" and c["foreign"] == "0" and c["double"] == "0") or v.get("live") != c["live"]:
             trace_ok = False; trace_detail.append("%s: Lean ledger says %s, harness counters %s" % (tag, v, cl[0]))
         if name in BAD_FAMILY and name not in swept_bad:
             continue          # balance evaluated above; refusal sweep of this member is not in this run's rotation
-        phases = PHASES if ctx.thorough else QUICK_PHASES.get(name, PHASES)
+        phases = PHASES if ctx.thorough else QUICK_PHASES.get(tag, QUICK_PHASES.get(name, PHASES))
         for exc in (excs if name in ("s1", "s3", "s6", "s8", "w2") else excs[:1]):
             for ph in phases:
                 n = int(c.get("n_" + ph, "0"))
                 if n == 0:
                     continue
-                rc, out = run_harness(exe, ["sweep", xsl, xml, api, ph, "1", str(n), jobs, exc])
+                stride = 1 if ctx.thorough else QUICK_STRIDE.get(name, 1)
+                first = 1 + (ctx.seed % stride if stride > 1 else 0)
+                rc, out = run_harness(exe, ["sweep", xsl, xml, api, ph, str(first), str(n), jobs, exc, str(stride)])
                 got = {}
                 for l in out:
                     if l.startswith("k="):
                         f = fields(l)
                         got[int(f["k"])] = f
-                if len(got) != n:
+                if len(got) != len(range(first, n + 1, stride)):
                     ctx.oblige("fault harness: every index of %s/%s reported" % (tag, ph), "correspondence", False,
                                "%d of %d; rc=%d; %s" % (len(got), n, rc, "\n".join(out[-3:])))
                 for k in sorted(got):
@@ -634,7 +706,7 @@ def api_part(ctx, r, model):
                         ctx.fail("api.fresh-transformer-fails[%s] %s" % ("|".join(f.get("failsite", "?").split("|")[:2]), where),
                                  "a new transformer does not reproduce the clean run after the failure: " + str(f), inp)
         # a sample of failing indices: full event trace replayed on the Lean ledger, compared with the harness counters
-        for _ in range(0 if name in BAD_FAMILY else (1 if not ctx.thorough else 6)):
+        for _ in range(0 if (name in BAD_FAMILY or api in ("cross", "crossb")) else (1 if not ctx.thorough else 6)):
             ph = r.choice([p for p in PHASES if int(c.get("n_" + p, "0")) > 0])
             k = r.range(1, int(c["n_" + ph]))
             tf = os.path.join(work, "trace_one.txt")
@@ -649,13 +721,15 @@ def api_part(ctx, r, model):
             if v is None or v["verdict"] == "rejected" or int(v.get("bad", "-1")) != total_bad:
                 trace_ok = False; trace_detail.append("%s/%s/k=%d: ledger %s vs harness %s" % (tag, ph, k, v, f))
             ctx.case(nontrivial_key=("trace", tag, ph, k), cls="trace-replay")
+    _tick("sequences")
     # sequences of scenarios on ONE manager (balance across a history, failing and succeeding steps mixed)
     nseq = 4 if not ctx.thorough else 24
     for i in range(nseq):
         steps = []
         args = ["seq", "oom", os.path.join(work, "trace_seq.txt")]
+        pool = [sa for sa in scenarios if sa not in unbalanced_alone]
         for _ in range(r.range(2, 4)):
-            name, api = r.choice(scenarios)
+            name, api = r.choice(pool)
             args += [name + ".xsl", name + ".xml", api, "none", "0"]
             steps.append("%s-%s" % (name, api))
         rc, out = run_harness(exe, args)
@@ -672,6 +746,7 @@ def api_part(ctx, r, model):
         if v is None or v["verdict"] != "balanced":
             if ok:
                 trace_ok = False; trace_detail.append("seq %s: ledger %s" % (steps, v))
+    _tick(None)
     ctx.oblige("specification predicate via the Lean ledger (Ledger.replayAll/Balanced) agrees with the harness counters on "
                "every recorded trace", "correspondence", trace_ok, "\n".join(trace_detail[:5]))
     ab = ctx.extra.get("arena_blocks_reached", {})
@@ -749,6 +824,224 @@ def ostream_part(ctx, r, model, exe):
     ctx.hist["ostream:histories_x_indices"] = runs
     ctx.oblige("correspondence: XalanOutputStream transcoder slot (real stream, every refusal index) = Lean state machine OStream.setEnc",
                "correspondence", agree, str(detail[:2]))
+
+
+def cache_part(ctx, r, model, exe):
+    """XalanDOMStringCache as a busy/available partition: the real cache replays get/release/reset/clear histories (small bounds,
+    and the default bound 100 with 103 strings borrowed at once, released in both orders); the Lean model (StrCache.step) is
+    driven with the same history; list sizes, strings alive in the allocator and bad frees must agree after every call; nothing
+    may be destroyed twice and the destructor must leave nothing."""
+    n = 103
+    corpus = [(100, ["g"] * n + ["r%d" % i for i in range(n)] + ["R"]),                       # released oldest first
+              (100, ["g"] * n + ["r%d" % i for i in reversed(range(n))] + ["R", "g", "g"]),   # released newest first
+              (100, ["g"] * n + ["r%d" % i for i in range(0, n, 2)] + ["R"] + ["g"] * 5 + ["R", "C"]),
+              (1, ["g", "g", "g", "g", "r0", "r1", "r2", "R"])]
+    # handles of the generated histories are get() ordinals: a get() that reuses an available string makes a NEW handle
+    hists = list(corpus)
+    for _ in range(12 if not ctx.thorough else 120):
+        bound, ops = gen_cache_history_handles(r, r.range(4, 24))
+        hists.append((bound, ops))
+    agree, detail = True, []
+    req_lines, expect = [], []
+    for bound, ops in hists:
+        text = "bound=%d ; %s" % (bound, " ".join(ops))
+        rc, out = run_harness(exe, ["cache", str(bound)] + ops)
+        lines = [l for l in out if l.startswith(("sc ", "destroyed", "died"))]
+        ctx.case(nontrivial_key=("cache", bound, tuple(ops)), cls="string-cache-history",
+                 sample={"cache_bound": bound, "cache_ops": ops} if len(expect) == 0 else None)
+        inp = {"cache_bound": bound, "cache_ops": ops}
+        died = [l for l in lines if l.startswith("died")]
+        fin = fields(lines[-1]) if lines and lines[-1].startswith("destroyed") else None
+        bad_seen = any(fields(l).get("bad", "0") != "0" for l in lines if l.startswith(("sc ", "destroyed")))
+        if died or bad_seen or fin is None:
+            ctx.fail("cache.double-destroy: " + text, "a string of the cache is destroyed twice (bad free, or the process dies): " +
+                     " | ".join(lines[-3:])[-400:], inp)
+        elif fin.get("live") != "0":
+            ctx.fail("cache.unbalanced: " + text, "blocks outstanding after ~XalanDOMStringCache: " + lines[-1], inp)
+        req_lines.append("sc new %d 0" % bound); expect.append((text, lines[0] if lines else "<none>"))
+        for i, o in enumerate(ops):
+            req_lines.append("sc get" if o == "g" else "sc rel " + o[1:] if o[0] == "r" else "sc reset" if o == "R" else "sc clear")
+            expect.append((text, lines[i + 1] if i + 1 < len(lines) else "<none>"))
+    work = os.path.join(common.CACHE, "work", "c19")
+    req = os.path.join(work, "cache_%d.req" % ctx.seed)
+    with open(req, "w") as f:
+        f.write("\n".join(req_lines) + "\n")
+    rc, out = common.sh("%s < %s" % (model, req))
+    ml = out.split("\n")
+    seen = set()
+    for i, ex in enumerate(expect):
+        got = ml[i] if i < len(ml) else "<missing>"
+        if got != ex[1] and ex[0] not in seen:
+            seen.add(ex[0])
+            agree = False
+            detail.append({"history": ex[0][:300], "call": req_lines[i], "impl": ex[1], "model": got})
+    ctx.hist["cache:histories"] = len(hists)
+    ctx.oblige("correspondence: XalanDOMStringCache (real cache: list sizes, strings alive in its allocator, bad frees after every "
+               "call) = Lean model StrCache.step", "correspondence", agree, str(detail[:2]))
+
+
+def gen_cache_history_handles(r, n):
+    """as gen_cache_history, with handles = ordinals of the get() calls (what the harness and the Lean driver use): tracks, per
+    string, the handles that name it; a handle of a string that has been destroyed is never used again"""
+    bound = r.choice([0, 1, 1, 2, 3])
+    avail, busy, ops = [], [], []       # lists of string ids; names[id] = handles naming the string
+    names, nget, nstr = {}, 0, 0
+    for _ in range(n):
+        c = r.range(0, 11)
+        if c < 5 or not (busy or avail):
+            ops.append("g")
+            if avail:
+                s = avail.pop()
+            else:
+                s = nstr; nstr += 1; names[s] = []
+            busy.append(s); names[s].append(nget); nget += 1
+        elif c < 10:
+            pool = busy if (busy and (not avail or r.range(0, 4) > 0)) else avail
+            s = r.choice(pool)
+            ops.append("r%d" % r.choice(names[s]))
+            if s in busy:
+                busy.remove(s)
+                if len(avail) <= bound:
+                    avail.append(s)
+                else:
+                    del names[s]
+        elif c == 10:
+            ops.append("R")
+            if len(avail) <= bound:
+                avail += list(reversed(busy))
+            else:
+                for s in busy:
+                    del names[s]
+            busy = []
+        else:
+            ops.append("C")
+            avail, busy, names = [], [], {}
+    return bound, ops
+
+
+def init_part(ctx, exe):
+    """global initialisation under a refusing manager: XalanTransformer::initialize(mgr) with its k-th request refused (every k, each
+    in a fresh process), then — as an application would — initialize() again with nothing refused, one transformation, and
+    terminate().  The retry must succeed, the transformation must give the result of the clean run, nothing may be freed
+    twice, and the process must not die."""
+    rc, lines = run_harness(exe, ["count", "s1.xsl", "s1.xml", "split", "-"])
+    cl = [l for l in lines if l.startswith("counts ")]
+    if not cl:
+        return
+    want = fields(cl[0])["outhash"]
+    rc, out = run_harness(exe, ["init", "s1.xsl", "s1.xml", "0", "0", "1", want])
+    f0 = fields(out[0]) if out else {}
+    ok0 = f0.get("end") == "exit0" and f0.get("init1") == "ok" and f0.get("work") == "ok" and f0.get("same") == "1"
+    ctx.oblige("fault harness: XalanTransformer::initialize(manager) / transform / terminate() with nothing refused reproduces the "
+               "clean run", "correspondence", ok0, str(out[:1])[:600])
+    if not ok0:
+        return
+    ctx.case(nontrivial_key=("init", 0), cls="global-init")
+    if f0.get("live") != "0" or f0.get("foreign") != "0" or f0.get("double") != "0":
+        ctx.fail("init.unbalanced", "initialize(manager) .. terminate() with nothing refused: " + out[0][-300:], {"init_k": 0})
+    n = int(f0["n_init"])
+    jobs = str(max(2, min(16, common.NPROC)))
+    rc, out = run_harness(exe, ["init", "s1.xsl", "s1.xml", "1", str(n), jobs, want])
+    got = {}
+    for l in out:
+        if l.startswith("k="):
+            f = fields(l)
+            got[int(f["k"])] = f
+    if len(got) != n:
+        ctx.oblige("fault harness: every index of the global initialisation reported", "correspondence", False,
+                   "%d of %d; rc=%d" % (len(got), n, rc))
+    stats = {"children": 0, "retry_ok": 0, "leak_after_failure": 0}
+    for k in sorted(got):
+        f = got[k]
+        stats["children"] += 1
+        inp = {"init_k": k, "outhash": want}
+        ctx.case(nontrivial_key=("init", k), cls="fault:global-init", sample=inp if k == 1 else None)
+        fs = "|".join(f.get("failsite", "?").split("|")[:2])
+        stage = f.get("stages", "").split(",")[-1]
+        if f.get("end") != "exit0":
+            ctx.fail("init.%s[%s] during[%s] k=%d" % ("signal" + f["signal"] if "signal" in f else "terminate" if "terminate" in f else "died",
+                                                        "|".join((f.get("sigstack") or f.get("terminate") or "?").split("|")[:2]), stage, k),
+                     "refusing request #%d of XalanTransformer::initialize(manager) ends the process (%s) in stage `%s`; refused at %s" % (
+                         k, f.get("end"), stage, fs), inp)
+            continue
+        if f.get("init1") == "ok":
+            ctx.oblige("fault harness: the refusal fired in the global initialisation, k=%d" % k, "correspondence", False, str(f)[:400])
+            continue
+        if f.get("foreign") != "0" or f.get("double") != "0":
+            ctx.fail("init.badfree[%s] k=%d" % (fs, k), "double/foreign free after a refused request of the global initialisation: " + str(f)[:400], inp)
+        if f.get("init2") != "ok":
+            ctx.fail("init.retry-fails[%s] k=%d" % (f.get("init2"), k),
+                     "after a refused request (#%d, at %s) XalanTransformer::initialize() fails again although nothing is refused" % (k, fs), inp)
+        elif f.get("work") != "ok" or f.get("same") != "1":
+            ctx.fail("init.retry-unusable[%s] k=%d" % (stage if f.get("work") != "ok" else "other-output", k),
+                     "after a refused request (#%d, at %s) the second XalanTransformer::initialize() succeeds, but the library is not "
+                     "initialised: the transformation %s" % (k, fs, "fails: work=" + str(f.get("work")) if f.get("work") != "ok" else "gives another result"), inp)
+        else:
+            stats["retry_ok"] += 1
+            if f.get("live") != "0":
+                stats["leak_after_failure"] += 1       # allowed: reclaimable by discarding the manager
+    ctx.extra["global_init_enumeration"] = stats
+    for k2, v2 in stats.items():
+        ctx.hist["init:" + k2] = v2
+
+
+def liaison_part(ctx, exe):
+    """XercesParserLiaison used directly under one manager: documents it parsed (and owns) handed back through both
+    destroyDocument() overloads, or left to reset()/the destructor; nothing may remain after the liaison is gone."""
+    for variant in ("reset", "xalandoc", "xercesdoc"):
+        for ndocs in (1, 3):
+            rc, out = run_harness(exe, ["liaison", "s2.xml", variant, str(ndocs)])
+            f = fields(out[0]) if out else {}
+            inp = {"liaison": variant, "ndocs": ndocs}
+            ctx.case(nontrivial_key=("liaison", variant, ndocs), cls="parser-liaison", sample=inp if (variant, ndocs) == ("xalandoc", 1) else None)
+            if f.get("end") != "exit0" or f.get("liaison") != "ok":
+                ctx.fail("liaison.died[%s] %s" % (variant, "|".join((f.get("sigstack") or f.get("terminate") or "?").split("|")[:2])),
+                         "parse %d document(s), destroyDocument (%s), ~XercesParserLiaison, nothing refused: %s" % (ndocs, variant, (out[0] if out else "")[:300]), inp)
+            elif f.get("live") != "0" or f.get("foreign") != "0" or f.get("double") != "0":
+                ctx.fail("liaison.unbalanced[%s]" % variant,
+                         "parse %d document(s), destroyDocument (%s), ~XercesParserLiaison, nothing refused: %s" % (ndocs, variant, out[0][-200:]), inp)
+
+
+XPE_EXPRS = ["//*", "count(//*)", "string(/*/*[2])", "concat(name(/*), '-', sum(//*[number(.) = number(.)]))",
+             "//*[position() mod 2 = 1] | //@*", "normalize-space(translate(string(/), '\n', ' '))"]
+
+
+def xpe_part(ctx, exe):
+    """objects of one manager over objects of another: a document parsed under manager M1, an XPathEvaluator under manager M2
+    evaluating expressions on it (XObjects, node lists, strings), every request of M2 refused once; per-manager ledgers."""
+    args = ["xpe", "s2.xml"]
+    rc, out = run_harness(exe, args + ["0"] + XPE_EXPRS)
+    f0 = fields(out[0]) if out else {}
+    ok0 = f0.get("end") == "exit0" and f0.get("xpe") == "ok"
+    ctx.oblige("fault harness: XPathEvaluator (manager M2) over a XalanSourceTree document (manager M1), nothing refused, runs",
+               "correspondence", ok0, str(out[:1])[:500])
+    if not ok0:
+        return
+    n = int(f0["n"])
+    from concurrent.futures import ThreadPoolExecutor
+    with ThreadPoolExecutor(max_workers=max(2, min(8, common.NPROC // 2))) as ex:
+        res = list(ex.map(lambda k: run_harness(exe, args + [str(k)] + XPE_EXPRS)[1], range(1, n + 1)))
+    leaks = 0
+    for k, o in [(0, out)] + list(zip(range(1, n + 1), res)):
+        f = fields(o[0]) if o else {}
+        inp = {"xpe_k": k}
+        ctx.case(nontrivial_key=("xpe", k), cls="fault:xpath-evaluator-two-managers", sample=inp if k == 1 else None)
+        fs = "|".join(f.get("failsite", "?").split("|")[:2])
+        if f.get("end") != "exit0":
+            ctx.fail("xpe." + site_of(f)[4:] + " k=%d" % k, "XPathEvaluator under M2 over a document of M1, request #%d of M2 refused: the process ends (%s)" % (k, f.get("end")), inp)
+            continue
+        if any(f.get(x) != "0" for x in ("foreign1", "double1", "foreign2", "double2")):
+            ctx.fail("xpe.badfree[%s] k=%d" % (fs, k), "a block released to the wrong manager, or twice: " + o[0][-260:], inp)
+        elif k == 0 and (f.get("live1") != "0" or f.get("live2") != "0"):
+            ctx.fail("xpe.unbalanced", "nothing refused, evaluator and liaison destroyed: " + o[0][-260:], inp)
+        elif k > 0 and f.get("fired") != "1":
+            ctx.oblige("fault harness: the refusal fired in xpe k=%d" % k, "correspondence", False, str(f)[:300])
+        elif k > 0 and f.get("xpe") == "ok" and f.get("outhash") != f0.get("outhash"):
+            ctx.fail("xpe.silent-wrong-result[%s] k=%d" % (fs, k), "refused request swallowed and another result produced", inp)
+        elif f.get("live1") != "0" or f.get("live2") != "0":
+            leaks += 1
+    ctx.hist["xpe:children"] = n + 1
+    ctx.hist["xpe:leak_after_failure"] = leaks
 
 
 def asan_part(ctx, r):
@@ -838,8 +1131,13 @@ def run(ctx):
     exe = common.build_harness("c19_memmgr", ["c19_memmgr.cpp"], flavor="hooks", sanitize=False, extra=["-ldl", "-rdynamic"])
     ostream_part(ctx, r, model, exe)
     t3 = time.time()
+    cache_part(ctx, r, model, exe)
+    init_part(ctx, exe)
+    liaison_part(ctx, exe)
+    xpe_part(ctx, exe)
+    t4 = time.time()
     ctx.extra["seconds"] = {"container_correspondence": round(t1 - t0, 1), "api_fault_enumeration": round(t2 - t1, 1),
-                            "ostream_state_machine": round(t3 - t2, 1)}
+                            "ostream_state_machine": round(t3 - t2, 1), "cache_init_liaison": round(t4 - t3, 1)}
     if ctx.thorough:
         asan_part(ctx, r)
     ctx.extra.pop("_ended_abnormally", None)
@@ -857,6 +1155,26 @@ def replay(ctx, path):
         print("\n".join(out))
         f = fields(out[0]) if out else {}
         return 0 if f.get("end") == "exit0" and f.get("fresh") == "ok" and f.get("foreign") == "0" and f.get("double") == "0" else 1
+    if isinstance(inp, dict) and ("cache_ops" in inp or "init_k" in inp or "liaison" in inp or "xpe_k" in inp):
+        exe = common.build_harness("c19_memmgr", ["c19_memmgr.cpp"], flavor="hooks", sanitize=False, extra=["-ldl", "-rdynamic"])
+        if "cache_ops" in inp:
+            rc, out = run_harness(exe, ["cache", str(inp["cache_bound"])] + inp["cache_ops"])
+            print("\n".join(out[-6:]))
+            return 0 if any(l.startswith("destroyed live=0 bad=0") for l in out) and not any(l.startswith("died") for l in out) else 1
+        if "xpe_k" in inp:
+            rc, out = run_harness(exe, ["xpe", "s2.xml", str(inp["xpe_k"])] + XPE_EXPRS)
+            print("\n".join(out))
+            f = fields(out[0]) if out else {}
+            return 0 if f.get("end") == "exit0" and all(f.get(x) == "0" for x in ("foreign1", "double1", "foreign2", "double2")) else 1
+        if "init_k" in inp:
+            rc, out = run_harness(exe, ["init", "s1.xsl", "s1.xml", str(inp["init_k"]), str(inp["init_k"]), "1", inp.get("outhash", "0")])
+            print("\n".join(out))
+            f = fields(out[0]) if out else {}
+            return 0 if f.get("end") == "exit0" and f.get("init2") in ("ok", "-") and f.get("work") == "ok" and f.get("same") == "1" else 1
+        rc, out = run_harness(exe, ["liaison", "s2.xml", inp["liaison"], str(inp["ndocs"])])
+        print("\n".join(out))
+        f = fields(out[0]) if out else {}
+        return 0 if f.get("end") == "exit0" and f.get("live") == "0" else 1
     if isinstance(inp, dict) and "scenario" in inp:
         exe = common.build_harness("c19_memmgr", ["c19_memmgr.cpp"], flavor="hooks", sanitize=False, extra=["-ldl", "-rdynamic"])
         name, api = inp["scenario"].rsplit("-", 1)
